@@ -102,6 +102,9 @@ pub enum Op {
     ContainsFresh { sel: u16 },
     /// concurrent cache: open an iterator, take `after` items, call invalidate_all(), take the rest
     IterInvalidateAll { after: u8 },
+    /// concurrent cache: clone the handle in use / drop another handle / switch handle /
+    /// toggle the alternative entry points (`get_if_present`, `IntoIterator for &Cache`)
+    Handle { sel: u8 },
     /// `format!("{:?}", cache)`: the entries it lists are an iteration
     DebugFmt,
     /// invalidate the `n` most recently burst-inserted keys in a row, without sync
